@@ -40,7 +40,7 @@ theorem chunks_items (C : NewickCodec) (L : NewickLaws C) (items : List (T × Li
       cs.length = items.length ∧
       ∀ (i : Nat) (hi' : i < items.length) (hc : i < cs.length),
         ∃ ws₀ body bl, C.write (items[i]).1 = body ++ [';'] ∧ cs[i] = ws₀ ++ body ++ ';' :: bl ∧
-          (∀ c ∈ ws₀, isNewickWs c = true) := by
+          (∀ c ∈ ws₀, isNewickWs c = true) ∧ (∀ c ∈ bl, isBlank c = true) := by
   induction items with
   | nil => exact ⟨[], rfl, rfl, rfl, fun i hi' => absurd hi' (by simp)⟩
   | cons it r ih =>
@@ -75,7 +75,7 @@ theorem chunks_items (C : NewickCodec) (L : NewickLaws C) (items : List (T × Li
       simp only [tailGo, hchunk, List.append_assoc, hlnb3, if_true, h2]
     · intro i hi' hc
       cases i with
-      | zero => exact ⟨ws₀, body', bl, hb, rfl, hws⟩
+      | zero => exact ⟨ws₀, body', bl, hb, rfl, hws, hbl⟩
       | succ j => exact h4 j (by simpa using hi') (by simpa using hc)
 
 theorem parse_chunk (C : NewickCodec) (L : NewickStreamLaws C) (t : T) (hw : L.wf t = true)
